@@ -192,3 +192,66 @@ def laws(F, k):
     L.eq(tp(to_matrix(a), p), apply_pt(a, p))
     out.append(L)
     return out
+
+
+def laws_q(F):
+    """Quaternion-backed Decomposed: composition / identity / matrix-commutation laws by REDUCTION to the Basis3 instantiation
+    through M(q) = m3_from_q(q): the b3 spec functions are included under the prefix `decb_`, the b3 laws (proved in unit
+    C08b3) and the C05 laws (M(q) v = q v for all q; M(pq) = M(p) M(q) for unit p, q) are imported as assumed contracts, and the
+    bridge below is proved here (pass A only, no polynomial work)."""
+    from c_conv import laws_c05
+    out = [text_specs('b3').replace('dec_', 'decb_')]
+    for L in laws_c05(F):
+        if L.name in ('m_from_q_action', 'm_from_q_compose'):
+            out.append(L.render_assumed('C05'))
+    for L in laws(F, 'b3'):
+        out.append(L.render_assumed('C08b3').replace('dec_', 'decb_'))
+    out.append('''
+pub open spec fn dec_as_b3(d: Decomposed<Vector3<Sc>, Quaternion<Sc>>) -> Decomposed<Vector3<Sc>, Basis3<Sc>> {
+    Decomposed { scale: d.scale, rot: Basis3 { mat: m3_from_q(d.rot) }, disp: d.disp }
+}
+pub open spec fn dec_unit(d: Decomposed<Vector3<Sc>, Quaternion<Sc>>) -> bool { q_magnitude2(d.rot)@ == 1real }
+// applying, composing, the identity and the conversion to a matrix all commute with d -> dec_as_b3(d)
+pub proof fn law_decq_bridge(a: Decomposed<Vector3<Sc>, Quaternion<Sc>>, b: Decomposed<Vector3<Sc>, Quaternion<Sc>>, p: Point3<Sc>, v: Vector3<Sc>)
+    requires dec_unit(a), dec_unit(b)
+    ensures dec_apply_vec(a, v) == decb_apply_vec(dec_as_b3(a), v),
+        dec_apply_pt(a, p) == decb_apply_pt(dec_as_b3(a), p),
+        dec_as_b3(dec_concat(a, b)) == decb_concat(dec_as_b3(a), dec_as_b3(b)),
+        dec_as_b3(dec_one()) == decb_one(),
+        dec_to_matrix(a) == decb_to_matrix(dec_as_b3(a)),
+        dec_unit(dec_concat(a, b)),
+{
+    law_m_from_q_action(a.rot, v3_scale(v, a.scale));
+    law_m_from_q_action(a.rot, p3_to_vec(p3_scale(p, a.scale)));
+    law_m_from_q_action(a.rot, v3_scale(b.disp, a.scale));
+    law_m_from_q_compose(a.rot, b.rot);
+    law_q_ring(a.rot, b.rot, b.rot);
+    assert(q_magnitude2(q_mul(a.rot, b.rot))@ == q_magnitude2(a.rot)@ * q_magnitude2(b.rot)@);
+    assert(q_magnitude2(a.rot)@ * q_magnitude2(b.rot)@ == 1real) by(nonlinear_arith) requires q_magnitude2(a.rot)@ == 1real, q_magnitude2(b.rot)@ == 1real;
+    assert(m3_from_q(q_one()) == m3_identity());
+}
+// the statement of C08 for the quaternion instantiation (unit rotations)
+pub proof fn law_decq_compose(a: Decomposed<Vector3<Sc>, Quaternion<Sc>>, b: Decomposed<Vector3<Sc>, Quaternion<Sc>>, p: Point3<Sc>, v: Vector3<Sc>)
+    requires dec_unit(a), dec_unit(b)
+    ensures dec_apply_pt(dec_concat(a, b), p) == dec_apply_pt(a, dec_apply_pt(b, p)),
+        dec_apply_vec(dec_concat(a, b), v) == dec_apply_vec(a, dec_apply_vec(b, v)),
+        dec_apply_pt(dec_one(), p) == p,
+        dec_apply_vec(dec_one(), v) == v,
+        dec_to_matrix(dec_concat(a, b)) == m4_mul(dec_to_matrix(a), dec_to_matrix(b)),
+        m4_transform_vector3(dec_to_matrix(a), v) == dec_apply_vec(a, v),
+        m4_transform_point3(dec_to_matrix(a), p) == dec_apply_pt(a, p),
+{
+    let (ab, bb) = (dec_as_b3(a), dec_as_b3(b));
+    let one = dec_one();
+    assert(dec_unit(one)) by { law_q_ring(q_one(), q_one(), q_one()); }
+    law_decq_bridge(a, b, p, v);
+    law_decq_bridge(b, a, p, v);
+    law_decq_bridge(dec_concat(a, b), one, p, v);
+    law_decq_bridge(one, one, p, v);
+    law_decq_bridge(a, b, dec_apply_pt(b, p), dec_apply_vec(b, v));
+    law_decb3_compose(ab, bb, p, v);
+    law_decb3_matrix(ab, bb, v);
+    law_decb3_matrix_pt(ab, p);
+}
+''')
+    return out
